@@ -10,6 +10,7 @@ Definition run (req : sexp) : sexp :=
   | Li [At "C11"; x] => run_C11 x
   | Li [At "C07"; x] => run_C07 x
   | Li [At "comp"; x] => run_comp x
+  | Li [At "wfpil"; x] => run_wfpil x
   | Li [At "C08"; x] => run_C08 x
   | _ => bad_request
   end.
